@@ -96,7 +96,7 @@ def lock_files(d):
     return sorted(os.listdir(p)) if os.path.exists(p) else []
 
 
-def signal_case(n, victim_k, sig, extra_args=(), env_extra=None, jugdir_prefix='', repeat=False, barrier=False):
+def signal_case(n, victim_k, sig, extra_args=(), env_extra=None, jugdir_prefix='', repeat=False, barrier=False, broken_stdio=False):
     """run `jug execute`, deliver `sig` while the worker is inside step(victim_k); then inspect, then let a second worker finish.
     returns a dict of observations"""
     d = core.scratch_dir('jugproc-')
@@ -107,7 +107,18 @@ def signal_case(n, victim_k, sig, extra_args=(), env_extra=None, jugdir_prefix='
         if barrier:
             open(os.path.join(d, 'with-barrier'), 'w').close()
         common = ['--will-cite', '--nr-wait-cycles', '2', '--wait-cycle-time', '0'] + list(extra_args)
-        p = jug_popen(['execute', 'jugfile.py'] + common, d, env_extra)
+        rfd = None
+        if broken_stdio:
+            # the worker writes into a pipe (`jug execute ... | tee log`, a batch system's log collector) whose reader goes away before the stop request
+            rfd, wfd = os.pipe()
+            env = dict(os.environ)
+            env['PYTHONPATH'] = core.REPO + os.pathsep + env.get('PYTHONPATH', '')
+            env['HOME'] = d
+            env.update(env_extra or {})
+            p = subprocess.Popen([sys.executable, '-c', 'from jug.jug import main; main()', 'execute', 'jugfile.py'] + common, cwd=d, env=env, stdout=wfd, stderr=wfd, text=True)
+            os.close(wfd)
+        else:
+            p = jug_popen(['execute', 'jugfile.py'] + common, d, env_extra)
         t0 = time.time()
         while not os.path.exists(os.path.join(d, 'inside-%d' % victim_k)):
             if p.poll() is not None or time.time() - t0 > 240:
@@ -116,6 +127,9 @@ def signal_case(n, victim_k, sig, extra_args=(), env_extra=None, jugdir_prefix='
             time.sleep(0.01)
         if repeat:
             open(os.path.join(d, 'slow-cleanup'), 'w').close()
+        if rfd is not None:
+            os.close(rfd)
+            rfd = None
         p.send_signal(sig)
         if repeat:
             # an impatient user / batch system repeats the request while the task function is still unwinding
@@ -126,11 +140,12 @@ def signal_case(n, victim_k, sig, extra_args=(), env_extra=None, jugdir_prefix='
             if p.poll() is None:
                 p.send_signal(sig)
         try:
-            out1 = p.communicate(timeout=120)[0]       # generous: the machine may be heavily loaded; a worker that ignores the signal never ends
+            out1 = p.communicate(timeout=120)[0] or ''       # generous: the machine may be heavily loaded; a worker that ignores the signal never ends
         except subprocess.TimeoutExpired:
             p.kill()
-            out1 = p.communicate()[0]
-            return {'error': 'worker did not end after signal %s' % sig, 'out': out1[-500:]}
+            out1 = p.communicate()[0] or ''
+            os.unlink(os.path.join(d, 'block-%d' % victim_k)) if os.path.exists(os.path.join(d, 'block-%d' % victim_k)) else None
+            return {'error': 'worker did not end after signal %s%s' % (sig, ' (its output pipe had lost its reader)' if broken_stdio else ''), 'out': out1[-500:]}
         obs = {'rc1': p.returncode, 'locks_after_signal': lock_files(d)}
         calls = read_calls(d)
         obs['calls_before'] = calls
@@ -208,6 +223,13 @@ def stop_family(run, rng, n=4):
         run.count('process_mode_stop_cases')
         if i == 0:
             run.sample({'process_mode': params, 'observed': {k: v for k, v in obs.items() if k in ('rc1', 'locks_after_signal', 'rc2', 'value', 'expected')}})
+    # the stop request arrives when the worker's output pipe has lost its reader (the log collector of the batch system went first)
+    for j, args in enumerate([['--keep-going', '--keep-failed'], []][:max(1, n // 4)]):
+        params = {'sig': int(signal.SIGTERM), 'k': 2, 'args': args, 'n': 4, 'broken_stdio': True}
+        obs = signal_case(4, 2, signal.SIGTERM, args, broken_stdio=True)
+        judge_stop(run, obs, params)
+        run.case(('proc-stop-broken-stdio', j, run.seed), nontrivial='error' not in obs)
+        run.count('process_mode_stop_cases')
 
 
 def exit_condition_case(kind):
@@ -303,10 +325,12 @@ def judge_kill(run, obs, params):
 
 
 def kill_family(run, rng, n=3):
-    for i in range(n):
-        k = rng.choice([1, 2, 3, 4, 101])
-        params = {'sig': int(signal.SIGKILL), 'k': k, 'n': 4}
-        obs = signal_case(4, k, signal.SIGKILL)
+    # the last two cases: a jugfile with a barrier - the worker is killed inside a task before the barrier (the jugfile is only partially loadable
+    # when the stale lock has to be removed) and inside one behind it
+    plan = [(rng.choice([1, 2, 3, 4, 101]), False) for _ in range(n)] + [(rng.choice([1, 2]), True), (rng.choice([3, 4]), True)]
+    for i, (k, barrier) in enumerate(plan):
+        params = {'sig': int(signal.SIGKILL), 'k': k, 'n': 4, 'barrier': barrier}
+        obs = signal_case(4, k, signal.SIGKILL, barrier=barrier)
         judge_kill(run, obs, params)
         run.case(('proc-kill', i, run.seed), nontrivial='error' not in obs)
         run.count('process_mode_kill_cases')
